@@ -137,7 +137,61 @@ def build_seqmc():
     return go_build(op, "./zzverif/seqmc/main", os.path.join(SCRATCH, "bin", "seqmc"))
 
 
-ENGINE_BUILDERS = {"seqmc": build_seqmc}
+BL_QUIET = ["async", "async/asyncmap", "async/internal/context", "async/internal/flag", "async/internal/lock",
+            "alloc", "alloc/bytequeue", "alloc/internal/arena", "alloc/internal/heap", "alloc/internal/buffer", "pools", "ref"]
+BL_DAEMON = ["async/internal/pool"]
+
+
+def build_instr():
+    out = os.path.join(SCRATCH, "bin", "instr")
+    e = goenv()
+    r = sh(["go", "build", "-o", out, "."], cwd=os.path.join(VERIF, "schedmc", "instr"), env=e, capture_output=True, text=True)
+    if r.returncode != 0:
+        log(r.stderr)
+        raise HarnessError("cannot build the instrumenter")
+    return out
+
+
+def run_instr(instr, outdir, flags, dirs, overlay):
+    r = sh([instr, "-out", outdir] + flags + dirs, capture_output=True, text=True)
+    if r.returncode != 0:
+        log(r.stderr)
+        raise HarnessError("instrumenter refused a construct (see above)")
+    for line in r.stdout.splitlines():
+        orig, new = line.split("\t")
+        overlay[orig] = new
+
+
+def build_schedmc(race=False):
+    instr = build_instr()
+    outdir = os.path.join(SCRATCH, "instr_out")
+    shutil.rmtree(outdir, ignore_errors=True)
+    os.makedirs(outdir)
+    ov = {}
+    bl = baselibrary_dir()
+    t = time.time()
+    run_instr(instr, outdir, ["-time", "-ids"], [os.path.join(REPO, "mpx"), os.path.join(REPO, "rpc")], ov)
+    run_instr(instr, outdir, [], [os.path.join(REPO, "internal", "writer")], ov)
+    run_instr(instr, outdir, ["-quiet"], [os.path.join(bl, d) for d in BL_QUIET], ov)
+    run_instr(instr, outdir, ["-quiet", "-daemon"], [os.path.join(bl, d) for d in BL_DAEMON], ov)
+    log("vcheck: instrumented %d files in %.1fs" % (len(ov), time.time() - t))
+    for sub in ("vsched", "vsync", "vsyncq", "vatomic", "vatomicq", "vtime", "vnet", "vexp"):
+        add_tree(ov, os.path.join(VERIF, "schedmc", "shim", sub), os.path.join(REPO, "zzverif", sub))
+    add_tree(ov, os.path.join(VERIF, "schedmc", "main"), os.path.join(REPO, "zzverif", "schedmc", "main"))
+    inpkg = os.path.join(VERIF, "schedmc", "inpkg")
+    for root, _d, files in os.walk(inpkg):
+        for f in files:
+            if f.endswith(".go"):
+                rel = os.path.relpath(os.path.join(root, f), inpkg)
+                ov[os.path.join(REPO, rel)] = os.path.join(root, f)
+    # the writer state dump used by C18 scenarios
+    wd = os.path.join(VERIF, "seqmc", "inpkg", "internal", "writer", "zz_vdump.go")
+    ov[os.path.join(REPO, "internal", "writer", "zz_vdump.go")] = wd
+    op = write_overlay("schedmc", ov)
+    return go_build(op, "./zzverif/schedmc/main", os.path.join(SCRATCH, "bin", "schedmc"))
+
+
+ENGINE_BUILDERS = {"seqmc": build_seqmc, "schedmc": build_schedmc}
 
 # --------------------------------------------------------------------------------------------------
 # known findings
